@@ -180,6 +180,7 @@ _ERR = [
     (r'Array type is ambiguous', lambda m: 'ArrayAmbiguous'),
     (r'Nested arrays are unsupported', lambda m: 'NestedArray'),
     (r'Array type is unresolvable', lambda m: 'ArrayUnresolvable'),
+    (r'Array elements cannot be empty', lambda m: 'ArrayEmptyElement'),
     (r'No matching function for signature ([^\s(]+)\((.*?)\)( -- .*)?',
      lambda m: 'NoMatchingFunction %s %s' % (m.group(1), _sig_from_str(m.group(2)))),
     (r'(Division by zero|Modulus of zero)', lambda m: 'Fold %s' % m.group(1).replace(' ', '_')),
